@@ -564,6 +564,32 @@ func (a *c20) lockStep(x *c20Ctx, in ssa.Instruction, s c20State) (c20State, boo
 	return s, true
 }
 
+// passesMembers: the call instruction is handed the members slice itself (its
+// header or the address of the field), as opposed to a value loaded from one
+// of its elements.
+func (a *c20) passesMembers(in ssa.Instruction) bool {
+	ci, ok := in.(ssa.CallInstruction)
+	if !ok {
+		return true
+	}
+	for _, arg := range ci.Common().Args {
+		if fa, ok := arg.(*ssa.FieldAddr); ok && fieldIDOfAddr(fa) == a.ro.Members {
+			return true
+		}
+		if _, isSlice := arg.Type().Underlying().(*types.Slice); isSlice {
+			if a.k.allOrigins(arg, a.isMembersLoad) != c20No {
+				return true
+			}
+		}
+		if _, isPtr := arg.Type().Underlying().(*types.Pointer); isPtr {
+			if _, toSlice := deref(arg.Type()).Underlying().(*types.Slice); toSlice {
+				return true
+			}
+		}
+	}
+	return false
+}
+
 // checkGuard: Y1. Every access to the members slice, on every path of the
 // inlined view of each entry point (the exported functions, entered without
 // the lock, and the watcher, entered with what NewPool hands over), happens
@@ -613,6 +639,11 @@ func (a *c20) checkGuard() {
 	for _, fn := range a.k.Funcs {
 		for _, acc := range FieldAccesses(fn, func(id FieldID) bool { return id == a.ro.Members }) {
 			if acc.Fresh {
+				continue
+			}
+			if acc.Kind == AccCall && !a.passesMembers(acc.Instr) {
+				// an element already loaded from the slice (a channel value) handed to a call is a copy:
+				// using it is not an access to the members slice
 				continue
 			}
 			m := ModeR
